@@ -277,6 +277,16 @@ theorem C03_reachable_encode_is_encoding_partial (o : Origin) (ss : List Setter)
     (he : encode m ctr m.len = .ok e) : Wire.Encodes e.out (absMsg e.msg) :=
   run_encodes hr hx hw ctr e he
 
+/-- … and the round trip, for the same runs: if the fields `Encode` leaves form a well-formed packet, decoding the
+bytes it wrote (followed by anything) succeeds, consumes exactly those bytes and yields equal fields — whatever
+form of the remaining length the decoded input used. -/
+theorem C03_reachable_decode_encode_encoding_partial (o : Origin) (ss : List Setter) (m : Msg)
+    (hr : run o ss = some m) (hx : ExcludedV o ss = false) (hw : WillOk m) (ctr : UInt64) (e : Encoded)
+    (he : encode m ctr m.len = .ok e) (hwf : Wire.WF (absMsg e.msg)) (rest : Bytes) :
+    ∃ d, decodeNew (absMsg e.msg).type (e.out ++ rest) = .ok d ∧ d.n = e.out.length ∧
+      absMsg d.msg = absMsg e.msg :=
+  run_round_trip_encodes hr hx hw ctr e he hwf rest
+
 /-- `ExcludedV` leaves out fewer runs than `Excluded`: a reference encoding is in particular an encoding -/
 theorem C03_excludedV_excluded (o : Origin) (ss : List Setter) (h : ExcludedV o ss = true) : Excluded o ss = true := by
   unfold ExcludedV at h
@@ -289,9 +299,11 @@ theorem C03_excludedV_excluded (o : Origin) (ss : List Setter) (h : ExcludedV o 
 example : ExcludedV cexPublish cexSetters = false ∧ ExcludedV cexConnect [] = true := by
   constructor <;> decide
 
-/-- The full round-trip statement for reachable messages.  Proved for every run that is not `Excluded`
-(`…_partial`); for the excluded runs (input not a reference encoding, object still clean) it is neither
-proved nor refuted here — the witnesses above do decode back to equal fields (`example`s below), and the
+/-- The full round-trip statement for reachable messages.  Proved for every run that is not `ExcludedV`
+(`C03_reachable_decode_encode_encoding_partial` below; `…_decode_encode_partial` is the special case of reference
+inputs); for the runs that stay excluded — a clean object whose input was not an encoding of the returned fields at
+all, i.e. the leniently accepted CONNECT — the hypothesis `WF (absMsg e.msg)` can still hold (user name flag with an
+empty user name is well-formed) while the bytes written lack the field: neither proved nor refuted here; the
 differential runs (`codec build from=…`) check it on the real code. -/
 def ReachableDecodeEncode : Prop :=
   ∀ m, Reachable m → WillOk m → ∀ (ctr : UInt64) (e : Encoded), encode m ctr m.len = .ok e →
